@@ -8,6 +8,8 @@ pub trait Fl: Float + FromPrimitive + AddAssign + Debug + Send + Sync + std::ite
     const NAME: &'static str;
     /// unit roundoff
     const U: f64;
+    /// largest finite value of the type
+    const MAXF: f64;
     fn to_f64_(self) -> f64;
     fn of(x: f64) -> Self;
     fn rat(self) -> Rat {
@@ -18,6 +20,7 @@ pub trait Fl: Float + FromPrimitive + AddAssign + Debug + Send + Sync + std::ite
 impl Fl for f64 {
     const NAME: &'static str = "f64";
     const U: f64 = 1.1102230246251565e-16;
+    const MAXF: f64 = f64::MAX;
     fn to_f64_(self) -> f64 {
         self
     }
@@ -31,6 +34,7 @@ impl Fl for f64 {
 impl Fl for f32 {
     const NAME: &'static str = "f32";
     const U: f64 = 5.960464477539063e-8;
+    const MAXF: f64 = f32::MAX as f64;
     fn to_f64_(self) -> f64 {
         self as f64
     }
